@@ -50,8 +50,8 @@ RULE = ("a case is a trace of operations on one real provider: authorization par
         "client; refused registrations followed by objects in the client's name; static clients next to a registered one; random. "
         "(8) registration HISTORIES: the id of the third client is registered 1..3 times (the first through parse_request + "
         "process_request, the later ones Registration.process_request(..., new_id=False) - the library's registration update / re-use "
-        "of an id), each registration bringing {a jwks, a jwks_uri document served by the stub httpc, an empty jwks, no key material "
-        "at all} with keys of generation {0,1,2} (all / fewer / mixed generations / the first generation again) and being issued a new "
+        "of an id), each registration bringing {a jwks, a jwks_uri document served by the stub httpc at the step's own URI or "
+        "(accepted republication) at the URI of an earlier step, an empty jwks, no key material at all} with keys of generation {0,1,2} (all / fewer / mixed generations / the first generation again) and being issued a new "
         "client_secret, accepted or refused (a refused one in first / middle position), asking for request_object_signing_alg by "
         "position patterns; after every prefix of every history: RS256 / ES256 objects under the keys of EVERY generation, HS256 "
         "objects under the secret of EVERY registration (also refused / never made ones), unsigned, x 3 transports; the key jar entry "
@@ -82,9 +82,17 @@ ASSUMPTIONS = [
     "key jar entry by what THIS request brings plus the secret issued for it (transcribed from Registration.client_registration_setup; "
     "a refused one changes nothing); the key numbers a registration brings are the generator's ground truth, the key jar entry the "
     "model computes is compared with the live key jar after every registration; every registration is issued a secret "
-    "(set_secret=True, the library's default); a jwks_uri document is fetched through the stub httpc (the KeyBundle's httpc is "
-    "set to it after the registration) and does not change between registrations other than by a registration; OKP keys are "
-    "outside the model",
+    "(set_secret=True, the library's default); OKP keys are outside the model",
+    "keys registered BY REFERENCE (jwks_uri) are whatever the client serves at the registered URI; refresh rule modelled: an "
+    "accepted registration deletes the id's key jar entry and files a fresh KeyBundle for the URI, which fetches the document at "
+    "its first use (the harness reads the key jar right after every registration: that is the first use; the KeyBundle's httpc "
+    "is set to the stub httpc); the document behind the URI of the registration IN FORCE is not replaced after that registration "
+    "(every registration of a history publishes at its OWN URI jwks/<index>.json, so a refused or replaced by-reference "
+    "registration cannot change what the one in force refers to; the deliberate same-URI rows - uri-republished, "
+    "uri-republished-jwks-between, random `doc` - republish through an ACCEPTED registration, which is then in force itself, so "
+    "the keys in force = the keys it brought = what is served at its URI; the driver reports a generator error otherwise).  "
+    "A document replaced behind the back of the registration in force, picked up by KeyBundle.update on a missing-key look-up "
+    "or a time-out, is key refresh: outside the modelled fragment of C16",
     "observation (not a violation; decided with the property's owner): a requested request_object_signing_alg the provider does NOT "
     "advertise is dropped by the registration negotiation (filter_client_request / match_claim), the registration is accepted with 201 "
     "and the response / client database / read endpoint all lack the parameter, so the provider's supported set is what is permitted "
@@ -430,6 +438,14 @@ class Runner:
             oc0 = w.observed_config()          # the provider before any registration under the id
             oc0["prov_default"] = w.base_algs
             rec["history"] = history
+            # precondition of the ground truth (see ASSUMPTIONS): the document behind the jwks_uri of the registration in
+            # force is not replaced afterwards (only a REFUSED registration could do that: an accepted one is in force itself)
+            last = max([i for i, sp in enumerate(history) if not sp.get("refuse")], default=None)
+            if last is not None and history[last].get("via") == "jwks_uri" and any(
+                    sp.get("via") == "jwks_uri" and S.jwks_uri_of(j, sp) == S.jwks_uri_of(last, history[last])
+                    for j, sp in enumerate(history) if j > last):
+                ctx.broken.append("generator: history %r replaces the document at the jwks_uri of the registration in force after "
+                                  "that registration (key refresh is outside the modelled fragment)" % (history,))
             for i, spec in enumerate(history):
                 ho = w.register_step(i, spec)
                 hobs.append(ho)
@@ -1481,7 +1497,10 @@ REG_HISTORIES = [
     ("new-jwks", [J(KG(0)), J(KG(1))]),
     ("new-jwks-uri", [J(KG(0)), U(KG(1))]),
     ("uri-then-none", [U(KG(0)), N()]),
-    ("uri-republished", [U(KG(0)), U(KG(1))]),
+    ("uri-republished", [U(KG(0), doc=0), U(KG(1), doc=0)]),        # the same URI, the document behind it replaced
+    ("uri-other-uri", [U(KG(0)), U(KG(1))]),                        # another URI, the first document still served
+    ("uri-refused-uri", [U(KG(0)), U(KG(1), refuse=True)]),         # a refused registration names (and serves) another document
+    ("uri-republished-jwks-between", [U(KG(0), doc=0), J(KG(2)), U(KG(1), doc=0)]),
     ("uri-then-jwks", [U(KG(0)), J(KG(1, "RSA"))]),
     ("fewer-keys", [J(KG(0)), J(KG(0, "RSA"))]),
     ("empty-jwks", [J(KG(0)), J([])]),
@@ -1531,7 +1550,7 @@ def gen_histories(R, quick):
     n = 0
     for hi, (hname, hist) in enumerate(REG_HISTORIES):
         for upto in range(1, len(hist) + 1):
-            if upto == 1 and hi not in (0, 3, 8, 12):
+            if upto == 1 and hname not in ("no-material", "uri-then-none", "secret-only", "first-refused"):
                 continue            # the one-registration prefixes repeat each other
             pats = [ALG_PATTERNS[(hi + upto) % len(ALG_PATTERNS)]] if quick else ALG_PATTERNS
             for pat in pats:
@@ -1574,6 +1593,8 @@ def gen_random_histories(R, rng, count):
             sp = N() if r < 0.3 else (J(keys) if r < 0.7 else U(keys))
             if rng.random() < 0.15:
                 sp["refuse"] = True
+            elif sp["via"] == "jwks_uri" and rng.random() < 0.3:
+                sp["doc"] = rng.randint(0, k)          # an ACCEPTED registration republishes at a URI used before (or its own)
             sp["alg"] = rng.choice([None, None, None, "RS256", "ES256", "HS256", "ES256K"])
             hist.append(sp)
         meth = rng.choice(["all", "all", "rp_pub", "pub"])
